@@ -107,6 +107,20 @@ pub fn normalize(raw: &Case, opts: &NormOpts) -> Case {
     // callers of earlier phases may still be inside a call when a later phase runs: count users over all phases
     let all_callers: Vec<Vec<Op>> = case.phases.iter().flat_map(|p| p.callers.iter().cloned()).collect();
     let all_users = object_users(&all_callers, objects);
+    // objects some operation of which may block the thread that runs it (a nested sync, a wait on a gate, a last-owner drop):
+    // their queues must not be run from inside somebody's wake() call (inline tasks), or the caller of wake() - who may be the
+    // very party the blocked operation is waiting for - is stuck
+    let mut may_block = vec![false; objects];
+    for ops in all_callers.iter() {
+        for op in ops.iter() {
+            if let Op::Desync { o, body, .. } | Op::Sync { o, body, .. } | Op::TrySync { o, body, .. } | Op::FutDesync { o, body, .. } | Op::FutSync { o, body, .. } | Op::After { o, body, .. } | Op::PipeIn { o, body, .. } | Op::Pipe { o, body, .. } = op {
+                if body_blocks(body) {
+                    may_block[sc(*o, objects) as usize] = true;
+                }
+            }
+        }
+    }
+    let may_block = may_block;
     for ph in case.phases.iter_mut() {
         // the pool maximum in force during this phase decides which pool-0 scope rules apply
         for act in ph.root.iter() {
@@ -234,6 +248,17 @@ pub fn normalize(raw: &Case, opts: &NormOpts) -> Case {
                             Some(si) if matches!(si.kind, SK::FutDesync | SK::FutSync | SK::After) && (hold.map_or(true, |(hs, _)| hs == s) || can_block_on(si.obj)) => {
                                 slots[s] = None;
                                 Op::Await { slot: s as u8 }
+                            }
+                            _ => Op::Nop,
+                        }
+                    }
+                    Op::AwaitInline { slot } => {
+                        let s = sl(*slot);
+                        match slots[s] {
+                            // (with no pool thread the wake-up's caller would become a second context running the queue)
+                            Some(si) if cfg.pool >= 1 && !may_block[si.obj] && matches!(si.kind, SK::FutDesync | SK::After) && hold.map_or(true, |(hs, _)| hs == s) => {
+                                slots[s] = None;
+                                Op::AwaitInline { slot: s as u8 }
                             }
                             _ => Op::Nop,
                         }
@@ -387,6 +412,15 @@ pub fn normalize(raw: &Case, opts: &NormOpts) -> Case {
                         match pslots[ps] {
                             Some((_, o)) if can_block_on(o) => Op::Consume { slot: ps as u8, k: 1 + (*k % 6) },
                             _ => Op::Nop,
+                        }
+                    }
+                    Op::ConsumeInline { slot, drop_on_wake } => {
+                        let ps = sl(*slot);
+                        if pslots[ps].is_some() && cfg.pool >= 1 {
+                            pslots[ps] = None;
+                            Op::ConsumeInline { slot: ps as u8, drop_on_wake: *drop_on_wake }
+                        } else {
+                            Op::Nop
                         }
                     }
                     Op::DropPipe { slot } => {
